@@ -36,6 +36,7 @@ import (
 	"github.com/postalsys/muti-metroo/internal/verifrt/simnet"
 	"github.com/postalsys/muti-metroo/internal/verifrt/simrt"
 	"github.com/postalsys/muti-metroo/internal/verifsim/hc"
+	"github.com/postalsys/muti-metroo/internal/verifsim/wsocks/sockseam"
 )
 
 func TestWorld(t *testing.T) {
@@ -118,7 +119,6 @@ type cconn struct {
 	sent    []byte // bytes delivered into the connection by the client
 	srvOut  []byte // bytes written by the server (seen at write time)
 	recv    []byte // bytes the client read
-	gname   string // server-side goroutine that wrote first
 	q       simrt.WaitQ
 	rdDone  bool
 	rdEOF   bool
@@ -128,6 +128,8 @@ type cconn struct {
 	desc    string
 	// pacing facts the oracles need
 	longPause bool
+	opened    time.Time // simulated time of the dial
+	lastSent  time.Time // simulated time at which the last bytes were delivered
 	// C23 stream-parser state
 	replySeen bool
 	stopParse bool
@@ -156,6 +158,7 @@ type env struct {
 	conns       []*cconn
 	byLink      map[*simnet.Link]*cconn
 	byLocal     map[string]*cconn
+	byG         map[string]*cconn // server-side goroutine name -> the connection it does I/O on
 	pending     []*actionRec
 	bg          simrt.Group
 	nPairs      int
@@ -196,8 +199,9 @@ type envOpts struct {
 // built, and starts the server under test. Returns nil when the agent refuses
 // the configuration (then nothing is served at all).
 func newEnv(o envOpts) *env {
-	e := &env{authEnabled: o.authEnabled, users: o.users, idle: o.idle, byLink: map[*simnet.Link]*cconn{}, byLocal: map[string]*cconn{}}
+	e := &env{authEnabled: o.authEnabled, users: o.users, idle: o.idle, byLink: map[*simnet.Link]*cconn{}, byLocal: map[string]*cconn{}, byG: map[string]*cconn{}}
 	e.net = simnet.Reset()
+	sockseam.OnIO = e.onServerIO
 	e.net.SetNodeIP("srv", srvIP)
 	e.net.OnLink = func(l *simnet.Link) {
 		if l.AccAddr == srvAddr {
@@ -278,6 +282,24 @@ func (e *env) finish() {
 	}
 }
 
+// onServerIO is the listener seam's notification: the calling goroutine does
+// I/O on the server side of a client connection, so it serves that connection.
+func (e *env) onServerIO(tc *simnet.TCPConn) {
+	g := simrt.CurG()
+	if g == nil {
+		return
+	}
+	c := e.byLink[tc.Link()]
+	if c == nil {
+		return
+	}
+	name := g.Name()
+	if e.byG[name] == nil {
+		e.byG[name] = c
+		e.resolvePending()
+	}
+}
+
 // tap sees every write on a client<->server link, in the writer's goroutine.
 func (e *env) tap(l *simnet.Link, dir int, b []byte) []byte {
 	if dir != 1 {
@@ -286,12 +308,6 @@ func (e *env) tap(l *simnet.Link, dir int, b []byte) []byte {
 	c := e.byLink[l]
 	if c == nil {
 		return b
-	}
-	if c.gname == "" {
-		if g := simrt.CurG(); g != nil {
-			c.gname = g.Name()
-			e.resolvePending(c)
-		}
 	}
 	c.srvOut = append(c.srvOut, b...)
 	simrt.Eventf("srv->c%d len=%d h=%x", c.id, len(b), simrt.FNV(b))
@@ -302,8 +318,20 @@ func (e *env) tap(l *simnet.Link, dir int, b []byte) []byte {
 	return b
 }
 
-func related(a, b string) bool {
-	return a == b || strings.HasPrefix(b, a+".") || strings.HasPrefix(a, b+".")
+// connOfG finds the connection served by goroutine name or by its nearest
+// ancestor (goroutines started by a go statement are named <parent>.<n>).
+func (e *env) connOfG(name string) *cconn {
+	for n := name; n != ""; {
+		if c := e.byG[n]; c != nil {
+			return c
+		}
+		i := strings.LastIndex(n, ".")
+		if i < 0 {
+			break
+		}
+		n = n[:i]
+	}
+	return nil
 }
 
 // attribute finds the client connection the calling (server-side) goroutine serves.
@@ -312,25 +340,13 @@ func (e *env) attribute() (*cconn, string) {
 	if g == nil {
 		return nil, ""
 	}
-	name := g.Name()
-	var hit *cconn
-	n := 0
-	for _, c := range e.conns {
-		if c.gname != "" && related(c.gname, name) {
-			hit = c
-			n++
-		}
-	}
-	if n == 1 {
-		return hit, name
-	}
-	return nil, name
+	return e.connOfG(g.Name()), g.Name()
 }
 
-func (e *env) resolvePending(c *cconn) {
+func (e *env) resolvePending() {
 	var rest []*actionRec
 	for _, p := range e.pending {
-		if related(c.gname, p.g) {
+		if c := e.connOfG(p.g); c != nil {
 			p.conn = c
 			e.commit(p)
 		} else {
@@ -596,7 +612,8 @@ func (e *env) openConn() *cconn {
 		panic("wsocks: dial server: " + err.Error())
 	}
 	tc := nc.(*simnet.TCPConn)
-	c := &cconn{id: len(e.conns) + 1, conn: tc, link: tc.Link(), local: tc.LocalAddr().String()}
+	c := &cconn{id: len(e.conns) + 1, conn: tc, link: tc.Link(), local: tc.LocalAddr().String(), opened: time.Now()}
+	c.lastSent = c.opened
 	e.conns = append(e.conns, c)
 	e.byLink[c.link] = c
 	e.byLocal[c.local] = c
@@ -627,6 +644,7 @@ func (c *cconn) write(b []byte) bool {
 	n, err := c.conn.Write(b)
 	if n > 0 {
 		c.sent = append(c.sent, b[:n]...)
+		c.lastSent = time.Now()
 	}
 	return err == nil
 }
